@@ -537,6 +537,8 @@ structure ModSpec where
   id : Nat
   decorated : List Nat
   plain : List Nat
+  /-- the module body raises after its definitions (a failing import) -/
+  fails : Bool := false
   deriving Repr, DecidableEq, Inhabited
 
 structure TaskIO where
@@ -562,6 +564,8 @@ structure St where
   cm : Option CM := none
   secs : List Sec := []
   tasks : List (Nat × Nat) := []
+  /-- some module could not be imported: `CollectionError`, exit code 3 -/
+  collectFailed : Bool := false
   deriving Repr, DecidableEq, Inhabited
 
 /-- local variables `out`, `err` of `task_capture` -/
@@ -600,21 +604,30 @@ def taskCapture (st : St) (task : Nat) (hook : String) (body : W → W) : St :=
 
 /-! ## Collection as far as it touches process-global state (collect.py:213-237, task.py:30-57, path.py:129-165) -/
 
-/-- `pytask_collect_file` for one module: import (body runs only if not cached), collect by name prefix,
-then the `trylast` implementation pops `COLLECTED_TASKS[path]`. -/
-def collectModule (p : Py) (m : ModSpec) : Py × List (Nat × Nat) :=
-  let p := if p.modules.contains m.id then p
-           else { p with modules := p.modules ++ [m.id], collected := p.collected ++ m.decorated.map (fun f => (m.id, f)) }
-  let popped := p.collected.filter (fun e => e.1 == m.id)
-  ({ p with collected := p.collected.filter (fun e => e.1 != m.id) },
-   m.plain.map (fun f => (m.id, f)) ++ popped)
+/-- `pytask_collect_file` for one module: `import_path` puts the module object into `sys.modules` *before*
+executing its body and returns the cached object on every later call; the body (and with it the `@task`
+decorators, which append to `COLLECTED_TASKS`) runs only on a cache miss. A body that raises makes this
+file's collection fail. Otherwise functions are collected by name prefix from the module namespace, then the
+`trylast` implementation pops `COLLECTED_TASKS[path]`. Returns the tasks and whether the import failed. -/
+def collectModule (p : Py) (m : ModSpec) : Py × List (Nat × Nat) × Bool :=
+  if p.modules.contains m.id then
+    let popped := p.collected.filter (fun e => e.1 == m.id)
+    ({ p with collected := p.collected.filter (fun e => e.1 != m.id) }, m.plain.map (fun f => (m.id, f)) ++ popped, false)
+  else
+    let p := { p with modules := p.modules ++ [m.id], collected := p.collected ++ m.decorated.map (fun f => (m.id, f)) }
+    if m.fails then
+      -- `_collect_not_collected_tasks` later pops what the decorators left behind (failed reports, no tasks)
+      ({ p with collected := p.collected.filter (fun e => e.1 != m.id) }, [], true)
+    else
+      let popped := p.collected.filter (fun e => e.1 == m.id)
+      ({ p with collected := p.collected.filter (fun e => e.1 != m.id) }, m.plain.map (fun f => (m.id, f)) ++ popped, false)
 
-def collectAll (p : Py) : List ModSpec → Py × List (Nat × Nat)
-  | [] => (p, [])
+def collectAll (p : Py) : List ModSpec → Py × List (Nat × Nat) × Bool
+  | [] => (p, [], false)
   | m :: ms =>
     let r := collectModule p m
     let s := collectAll r.1 ms
-    (s.1, r.2 ++ s.2)
+    (s.1, r.2.1 ++ s.2.1, r.2.2 || s.2.2)
 
 /-! ## One build -/
 
@@ -657,7 +670,7 @@ def step (cfg : Cfg) (st : St) : Op → St
   | .postParse _ => st
   | .collect mods =>
     let r := collectAll st.w.py mods
-    { st with w := { st.w with py := r.1 }, tasks := r.2 }
+    { st with w := { st.w with py := r.1 }, tasks := r.2.1, collectFailed := r.2.2 }
   | .collectLog => runCalls 0 "" id st collectLogCalls
   | .phase t hook ws filt =>
     taskCapture st t hook (if hook == "pytask_execute_task" then callBody cfg ws filt else fun w => doWrites w ws)
@@ -696,7 +709,7 @@ def runOps (cfg : Cfg) (st : St) (ops : List Op) : St := ops.foldl (step cfg) st
 
 /-- one `pytask.build(...)` call: a new session (sections and task list start empty) -/
 def runBuild (cfg : Cfg) (mods : List ModSpec) (ios : List TaskIO) (st : St) : St :=
-  runOps cfg { st with secs := [], tasks := [] } (buildOps cfg mods ios)
+  runOps cfg { st with secs := [], tasks := [], collectFailed := false } (buildOps cfg mods ios)
 
 /-- the caller drops the session and runs `gc.collect()` -/
 def release (cfg : Cfg) (st : St) : St := step cfg st .gc
